@@ -277,6 +277,21 @@ def eval_shards(outdir, stream):
     shards = meta["shards"]
     k = len(shards)
     t0 = time.time()
+    # every module the case files import must be freshly built: a stale .vo left behind by a failed
+    # `make -k` must not be used for the evaluation
+    stale = []
+    if shards:
+        try:
+            head = open(os.path.join(outdir, shards[0])).read(4000)
+            m = re.search(r"From PSA Require Import ([^.]*(?:\.[A-Za-z0-9_]+[^.]*)*)\.\n", head)
+            mods = re.findall(r"\b([A-Z][A-Za-z0-9_]*\.[A-Za-z0-9_]+)\b", m.group(1)) if m else []
+            for mod in sorted(set(mods)):
+                if not vo_uptodate(mod.replace(".", "/")):
+                    stale.append(mod)
+        except OSError:
+            pass
+    if stale:
+        return [], [], ["theories/%s.vo does not build from the current sources" % x.replace(".", "/") for x in stale], 0.0, meta
     procs = []
     for sname in shards:
         f = open(os.path.join(outdir, sname + ".out"), "w")
